@@ -327,6 +327,69 @@ pub fn run(cx: &mut Cx, w: &World, rng: &mut Rng, budget: u64) {
       raws.push(v);
     }
   }
+  // hand-assembled portable-format streams mixing populated and EMPTY containers (zero-run run containers, in any
+  // position), which the deserializer accepts: the value must still survive every later accessor / re-serialization
+  #[derive(Clone)]
+  enum Ct {
+    Array(Vec<u16>),
+    Run(Vec<(u16, u16)>), // (start, length - 1)
+  }
+  fn roaring_custom(cts: &[(u16, Ct)]) -> Vec<u8> {
+    let n = cts.len() as u32;
+    let mut v = (12347u32 | ((n - 1) << 16)).to_le_bytes().to_vec();
+    let mut bits = vec![0u8; ((n + 7) / 8) as usize];
+    for (i, (_, c)) in cts.iter().enumerate() {
+      if matches!(c, Ct::Run(_)) {
+        bits[i / 8] |= 1 << (i % 8);
+      }
+    }
+    v.extend_from_slice(&bits);
+    for (key, c) in cts {
+      let card: u32 = match c {
+        Ct::Array(a) => a.len() as u32,
+        Ct::Run(r) => r.iter().map(|(_, l)| *l as u32 + 1).sum(),
+      };
+      v.extend_from_slice(&key.to_le_bytes());
+      v.extend_from_slice(&(card.max(1) as u16).wrapping_sub(1).to_le_bytes());
+    }
+    let body: Vec<Vec<u8>> = cts
+      .iter()
+      .map(|(_, c)| match c {
+        Ct::Array(a) => a.iter().flat_map(|x| x.to_le_bytes()).collect(),
+        Ct::Run(r) => {
+          let mut b = (r.len() as u16).to_le_bytes().to_vec();
+          for (s, l) in r {
+            b.extend_from_slice(&s.to_le_bytes());
+            b.extend_from_slice(&l.to_le_bytes());
+          }
+          b
+        }
+      })
+      .collect();
+    if n >= 4 {
+      let mut off = v.len() as u32 + 4 * n;
+      for b in &body {
+        v.extend_from_slice(&off.to_le_bytes());
+        off += b.len() as u32;
+      }
+    }
+    for b in body {
+      v.extend_from_slice(&b);
+    }
+    v
+  }
+  let kinds = [Ct::Array(vec![1, 2]), Ct::Run(vec![]), Ct::Run(vec![(5, 2)]), Ct::Array(vec![7]), Ct::Run(vec![(0, 0), (9, 0)])];
+  for a in 0..kinds.len() {
+    raws.push(roaring_custom(&[(0, kinds[a].clone())]));
+    for b in 0..kinds.len() {
+      raws.push(roaring_custom(&[(0, kinds[a].clone()), (1, kinds[b].clone())]));
+      raws.push(roaring_custom(&[(3, kinds[a].clone()), (0xffff, kinds[b].clone())]));
+      for c in [1usize, 3] {
+        raws.push(roaring_custom(&[(0, kinds[a].clone()), (2, kinds[c].clone()), (9, kinds[b].clone())]));
+        raws.push(roaring_custom(&[(0, kinds[a].clone()), (2, kinds[c].clone()), (9, kinds[b].clone()), (10, kinds[1].clone()), (11, kinds[0].clone())]));
+      }
+    }
+  }
   for cut in [0usize, 1, 3, 4, 7, 8, 9, 12, 15, 16, rb.len() - 1] {
     raws.push(rb[..cut.min(rb.len())].to_vec());
   }
